@@ -18,6 +18,7 @@ package main
 //   C01 convert-panic / convert-error / convert-slow        every case
 //   C09 definitions-not-position-independent                op `move`: Convert(defs ++ D) == Convert(D ++ "\n\n" ++ defs), defs at the end with / without the final newline(s)
 //   C05 transform-lines-not-wellformed                      the probe: lines of a paragraph at transform time
+//   C02 closer-on-padded-line-differs                       the regression inputs `cvPrescribed` (repair 9e57c92): prescribed HTML / the spaces-only twin
 //   *   read-only-paragraph-transformer-changes-output      the probe instance (a transformer that only reads) renders differently
 
 import (
@@ -236,6 +237,9 @@ func implConvertHTML(c Case) ImplResult {
 	}()
 	if st.notWF {
 		res.Fails = append(res.Fails, OracleFail{"C05", "transform-lines-not-wellformed", st.details})
+	}
+	if f := cvCheckPrescribed(src, outs[6]); f != nil {
+		res.Fails = append(res.Fails, *f)
 	}
 	if st.blank != "" {
 		// hypothesis of GM.Props.ConvertNP (the guard `linesOKB` of `guardE`): no line handed to the transformer is blank
@@ -457,6 +461,65 @@ var cvFixed = []string{
 	"[a]: /u\n[", "[a]: /u\n[b", "[a]: /u\n[b]", "[a]: /u\n[b]:", "[a]: /u\n[b]: ", "[a]: /u\n[b]:\n", "[a]:\n", "[a]: \n", "[]: /u\n\n[]", "[ ]: /u\n\n[ ]", "[\n]: /u", "[a\n\nb]: /u",
 }
 
+// cvPrescribed: regression inputs of the repaired defect T1 (KNOWN_FINDINGS `fixed:` 9e57c92; text/reader.go findClosureReader
+// took the stop of the closing segment from the index into the PEEKED line, which starts with the virtual padding of a tab
+// partly consumed by a container, so a label / title that closes on such a line ran `Padding` bytes past its closer).
+// `want` is derived BY HAND from CommonMark 0.31.2: 2.2 (a tab that helps to define block structure counts as spaces up to
+// the next tab stop of 4: after `>` / the list item's content offset is consumed, the rest is leading white space of a
+// paragraph continuation line), 4.8 (that leading white space is skipped), 4.7 / 6.3 (labels are matched after collapsing
+// consecutive internal spaces, tabs and line endings to one space; a list item / block quote that contains only a definition
+// is empty). For the TITLE variants the expectation is the rendering of the spaces-only twin (2.2 makes the two spellings the
+// same document): the white space in front of a title's continuation line is inside the title with goldmark whichever way
+// it is spelled (cmark drops it: a separate, older deviation - notes/status_escfix.md), so only the twin is spelling-independent.
+// Every entry is also compared with the Lean model like any other document.
+type cvPresc struct{ src, want, twin string }
+
+var cvPrescribed = []cvPresc{
+	{src: "> [a\n>\tb]: /u\n\n[a b]", want: "<blockquote>\n</blockquote>\n<p><a href=\"/u\">a b</a></p>\n"},
+	{src: "> [a\n>\tb]: /u\n\n[a b]\n", want: "<blockquote>\n</blockquote>\n<p><a href=\"/u\">a b</a></p>\n"},
+	{src: ">\t[a\n>\tb]: /u\n\n[a b]\n", want: "<blockquote>\n</blockquote>\n<p><a href=\"/u\">a b</a></p>\n"},
+	{src: "> [a\n>\t]: /u\n\n[a]\n", want: "<blockquote>\n</blockquote>\n<p><a href=\"/u\">a</a></p>\n"},
+	{src: "> [a\n>\tb]: /u\n>\n> [a b]\n", want: "<blockquote>\n<p><a href=\"/u\">a b</a></p>\n</blockquote>\n"},
+	{src: "- [a\n\tb]: /u\n\n[a b]\n", want: "<ul>\n<li></li>\n</ul>\n<p><a href=\"/u\">a b</a></p>\n"},
+	{src: "- [a\n\tb]: /u\n- [a b]\n", want: "<ul>\n<li></li>\n<li><a href=\"/u\">a b</a></li>\n</ul>\n"},
+	{src: "1. [a\n\tb]: /u\n\n[a b]\n", want: "<ol>\n<li></li>\n</ol>\n<p><a href=\"/u\">a b</a></p>\n"},
+	{src: "> [a]: /u \"t\n>\tu\"\n\n[a]\n", twin: "> [a]: /u \"t\n>   u\"\n\n[a]\n"},
+	{src: "> [a]: /u 't\n>\tu'\n\n[a]", twin: "> [a]: /u 't\n>   u'\n\n[a]"},
+	{src: "> [a]: /u (t\n>\tu)\n\n[a]\n", twin: "> [a]: /u (t\n>   u)\n\n[a]\n"},
+	{src: "> [a]: /u\n>\t\"t\n>\tu\"\n\n[a]\n", twin: "> [a]: /u\n>   \"t\n>   u\"\n\n[a]\n"},
+	{src: "- [a]: /u \"t\n\tu\"\n\n[a]\n", twin: "- [a]: /u \"t\n    u\"\n\n[a]\n"},
+	{src: "1. [a]: /u \"t\n\tu\"\n\n[a]\n", twin: "1. [a]: /u \"t\n    u\"\n\n[a]\n"},
+}
+
+var cvPrescribedOnce sync.Once
+var cvPrescribedBySrc map[string]cvPresc
+
+// the oracle for an entry of cvPrescribed: option set 6 (unsafe + XHTML, the configuration of the specification's examples)
+func cvCheckPrescribed(src []byte, got []byte) *OracleFail {
+	cvPrescribedOnce.Do(func() {
+		cvPrescribedBySrc = map[string]cvPresc{}
+		for _, p := range cvPrescribed {
+			cvPrescribedBySrc[p.src] = p
+		}
+	})
+	p, ok := cvPrescribedBySrc[string(src)]
+	if !ok {
+		return nil
+	}
+	want, how := []byte(p.want), "CommonMark 2.2/4.7/4.8 prescribes"
+	if p.twin != "" {
+		w, f := cvConvert(6, []byte(p.twin))
+		if f != nil {
+			return f
+		}
+		want, how = w, fmt.Sprintf("the spaces-only twin %q renders (CommonMark 2.2)", p.twin)
+	}
+	if !bytes.Equal(got, want) {
+		return &OracleFail{"C02", "closer-on-padded-line-differs", fmt.Sprintf("source=%q goldmark=%q %s=%q", src, got, how, want)}
+	}
+	return nil
+}
+
 func genConvert(tier string, rng *RNG, emit func(Case)) {
 	thorough := tier == "thorough"
 	doc := func(b []byte) { emit(Case{Op: "html", Args: []string{hx(b)}}) }
@@ -489,6 +552,9 @@ func genConvert(tier string, rng *RNG, emit func(Case)) {
 	}
 	for _, s := range cvFixed {
 		doc([]byte(s))
+	}
+	for _, p := range cvPrescribed {
+		doc([]byte(p.src))
 	}
 	for _, s := range inlFixed() {
 		doc([]byte(s))
